@@ -1,9 +1,15 @@
 package main
 
 import (
+	"bytes"
+	"context"
+	"encoding/json"
 	"fmt"
 	"os"
+	"os/exec"
 	"path/filepath"
+	"strings"
+	"time"
 
 	lua "github.com/yuin/gopher-lua"
 
@@ -23,6 +29,13 @@ type runner struct {
 	ioLines lua.LValue
 	ioInput lua.LValue
 	ioClose lua.LValue
+	ioTab   lua.LValue
+}
+
+// viaIO: the step is spelt through the default streams (io.input(f) / io.output(f) first)
+func (r *runner) setDefault(which string, ud lua.LValue) error {
+	_, err := r.call(r.L.GetField(r.ioTab, which), ud)
+	return err
 }
 
 func (r *runner) call(fn lua.LValue, args ...lua.LValue) (vals []lua.LValue, err error) {
@@ -138,7 +151,16 @@ func (r *runner) step(o Op) Res {
 	L := r.L
 	switch o.T {
 	case "open":
-		vals, err := r.call(r.ioOpen, lua.LString(r.path), lua.LString(o.Mode))
+		var vals []lua.LValue
+		var err error
+		switch {
+		case o.Via == "io" && o.Mode == "r":
+			vals, err = r.call(r.ioInput, lua.LString(r.path)) // io.input(name): mode "r"
+		case o.Via == "io" && o.Mode == "w":
+			vals, err = r.call(r.L.GetField(r.ioTab, "output"), lua.LString(r.path)) // io.output(name): mode "w"
+		default:
+			vals, err = r.call(r.ioOpen, lua.LString(r.path), lua.LString(o.Mode))
+		}
 		if err != nil {
 			return Res{T: "raise"}
 		}
@@ -174,6 +196,12 @@ func (r *runner) step(o Op) Res {
 	switch o.T {
 	case "read":
 		args := []lua.LValue{ud}
+		if o.Via == "io" {
+			if err := r.setDefault("input", ud); err != nil {
+				return Res{T: "weird", Note: "io.input(f): " + err.Error()}
+			}
+			fn, args = r.L.GetField(r.ioTab, "read"), nil
+		}
 		if !o.NoArg {
 			for _, f := range o.Fmts {
 				switch f.K {
@@ -221,6 +249,12 @@ func (r *runner) step(o Op) Res {
 		return r.iterate(it[0], it[1:], o.K)
 	case "write":
 		args := []lua.LValue{ud}
+		if o.Via == "io" {
+			if err := r.setDefault("output", ud); err != nil {
+				return Res{T: "weird", Note: "io.output(f): " + err.Error()}
+			}
+			fn, args = r.L.GetField(r.ioTab, "write"), nil
+		}
 		for _, s := range o.Strs {
 			args = append(args, lua.LString(string(decode(s))))
 		}
@@ -236,6 +270,13 @@ func (r *runner) step(o Op) Res {
 	case "flush", "close":
 		if o.T == "close" && o.Via == "io" {
 			vals, err := r.call(r.ioClose, ud)
+			return shape(o.T, vals, err)
+		}
+		if o.Via == "io0" { // io.output(f); io.close() / io.flush()
+			if err := r.setDefault("output", ud); err != nil {
+				return Res{T: "weird", Note: "io.output(f): " + err.Error()}
+			}
+			vals, err := r.call(r.L.GetField(r.ioTab, o.T))
 			return shape(o.T, vals, err)
 		}
 		vals, err := r.call(fn, ud)
@@ -268,7 +309,7 @@ func execute(in Input) []Res {
 	io := L.GetGlobal("io")
 	r := &runner{L: L, path: path, iters: map[int][]lua.LValue{},
 		ioOpen: L.GetField(io, "open"), ioLines: L.GetField(io, "lines"),
-		ioInput: L.GetField(io, "input"), ioClose: L.GetField(io, "close")}
+		ioInput: L.GetField(io, "input"), ioClose: L.GetField(io, "close"), ioTab: io}
 	obs := make([]Res, 0, len(in.Ops))
 	for _, o := range in.Ops {
 		obs = append(obs, r.step(o))
@@ -280,6 +321,64 @@ func execute(in Input) []Res {
 		}
 	}
 	return obs
+}
+
+// a count beyond this could make a faulty reader allocate the process to death (observed: read(2^40)
+// before the repair): such histories run in a child process
+const childCount = int64(1) << 32
+
+func needsChild(in Input) bool {
+	for _, o := range in.Ops {
+		for _, f := range o.Fmts {
+			if f.K == "count" && f.N >= childCount {
+				return true
+			}
+		}
+	}
+	return false
+}
+
+func childMain() {
+	defer os.RemoveAll(scratch)
+	var in Input
+	if err := json.NewDecoder(os.Stdin).Decode(&in); err != nil {
+		fmt.Fprintln(os.Stderr, "child: bad input:", err)
+		os.Exit(3)
+	}
+	b, _ := json.Marshal(execute(in))
+	os.Stdout.Write(b)
+}
+
+// executeSafe returns the observations, or a description of how the child died
+func executeSafe(in Input) ([]Res, string) {
+	if !needsChild(in) {
+		return execute(in), ""
+	}
+	ctx, cancel := context.WithTimeout(context.Background(), 60*time.Second)
+	defer cancel()
+	cmd := exec.CommandContext(ctx, os.Args[0], "child")
+	cmd.Env = append(os.Environ(), "GOMEMLIMIT=1GiB")
+	b, _ := json.Marshal(in)
+	cmd.Stdin = bytes.NewReader(b)
+	var out, errb bytes.Buffer
+	cmd.Stdout, cmd.Stderr = &out, &errb
+	err := cmd.Run()
+	var obs []Res
+	if err == nil && json.Unmarshal(out.Bytes(), &obs) == nil && len(obs) == len(in.Ops) {
+		return obs, ""
+	}
+	msg := errb.String()
+	if i := strings.IndexByte(msg, '\n'); i >= 0 {
+		msg = msg[:i]
+	}
+	if len(msg) > 200 {
+		msg = msg[:200]
+	}
+	obs = make([]Res, len(in.Ops))
+	for i := range obs {
+		obs[i] = Res{T: "weird", Note: "child died"}
+	}
+	return obs, fmt.Sprintf("the process running the history died (%v): %s", err, msg)
 }
 
 func hasSeq(b []byte, x, y byte) bool {
@@ -345,13 +444,19 @@ func matchKF(in Input) []string {
 }
 
 func runCase(w *lib.Writer, in Input) {
-	obs := execute(in)
+	obs, died := executeSafe(in)
 	id := w.NextID()
 	var bad []string
+	if died != "" {
+		bad = append(bad, died)
+	}
 	reads, moves, data := 0, 0, false
 	for i, r := range obs {
 		switch r.T {
 		case "weird":
+			if died != "" {
+				break
+			}
 			bad = append(bad, fmt.Sprintf("step %d (%s): unexpected result shape: %s", i, in.Ops[i].T, r.Note))
 		case "vals":
 			reads++
